@@ -6,12 +6,18 @@ Three kinds of scenario (one Coq `case` type, see coq/CorrC03.v):
   doc    a real Cas with 1-3 views with different texts, indexed and referenced-only annotations of several
          annotation types next to non-annotation feature structures of like-named types, text
          replacements after annotations exist; to_xmi()/to_json() parsed with the standard library only; both
-         documents loaded back with cassis; more text replacements on the loaded CAS and a second save
+         documents loaded back with cassis; more text replacements on the loaded CAS and a second save.
+         Third wave: annotations that change their view (removed from one view and added to another, sofa
+         re-assigned, before the first save and on the loaded CAS), and documents that are loaded in another
+         layout than cassis writes (entries of %FEATURE_STRUCTURES / elements of the XMI in another order, the
+         sofas after the annotations that refer to them)
 The oracle does its own UTF-16 arithmetic (len(s[:i].encode('utf-16-le')) // 2), independent of cassis and of
 the Coq model.
 """
+import io
 import itertools
 import json
+import random
 import xml.etree.ElementTree as ET
 
 ID = "C03"
@@ -33,8 +39,14 @@ RULE = (
     "middle, and text replaced again on the loaded CAS; in half of the documents (and every other exhaustive one) the "
     "annotations are of four annotation types (t.Ann, n.Ann, t.sub.Ann < t.Ann, n.Holder) and the CAS also holds "
     "non-annotation feature structures of types sharing their short names (t.Holder, m.Ann, m.Holder, m.sub.Ann), "
-    "created before, between and after the annotations. Non-trivial: the text holds an astral code point and (doc) "
-    "an annotation begins strictly after it."
+    "created before, between and after the annotations. In about 40 % of the random documents one or two annotations "
+    "change their view before the first save (indexed: remove + new offsets + add to another or the same view; "
+    "referenced-only: sofa re-assigned, or added to a view), sometimes right after a save; in about 30 % annotations "
+    "change their view on the loaded CASes before the second save; half of the random documents are loaded from a "
+    "re-laid-out copy of what was written (entries of %FEATURE_STRUCTURES / children of xmi:XMI reversed, sofas last, "
+    "shuffled, the id-keyed object form of %FEATURE_STRUCTURES, \\u-escaped surrogate pairs); every span of every short string is "
+    "also checked as an annotation first indexed in the other view and then moved. Non-trivial: the text holds an "
+    "astral code point and (doc) an annotation begins strictly after it."
 )
 TRUSTED = [
     "Coq 8.16.1 kernel and vm_compute (no native_compute); theorems in Props/C03.v are closed under the global context",
@@ -52,6 +64,10 @@ ASSUMPTIONS = [
     "oracle verdicts only for annotations whose view has a text and 0 <= begin <= end <= len(text); everything else "
     "is compared with the model only",
     "lxml / json escaping and the XML parser are not modelled (documents are reduced to begin/end per annotation label)",
+    "an annotation is a member of at most one view at a time (it changes its view by remove + add); the view it was "
+    "added to, or assigned the sofa of, last is its own view",
+    "re-laid-out documents keep every element / entry and every attribute; only their order (and, for JSON, the "
+    "container form and the string escaping) changes",
 ]
 
 ALPHABET = [0x61, 0xE9, 0xFFFD, 0x10000, 0x10FFFF]
@@ -154,12 +170,65 @@ def _final_texts(sc):
     return cur
 
 
+def _post_texts(sc):
+    cur = _final_texts(sc)
+    for v, sets in enumerate(sc["post"]):
+        if sets:
+            cur[v] = sets[-1]
+    return cur
+
+
+def _moved(a, m):
+    """state of annotation `a` (dict with v, b, e, idx) after move `m`: it belongs to view m['v']; new offsets if the
+    move assigns some; once a member of an index it stays one (a move of an indexed annotation is remove + add)"""
+    a = dict(a)
+    a["v"] = m["v"]
+    if m.get("off") is not None:
+        a["b"], a["e"] = m["off"]
+    a["idx"] = bool(a["idx"] or m["idx"])
+    a["mv"] = a.get("mv", 0) + 1
+    return a
+
+
 def _anns(sc):
-    return [op for op in sc["ops"] if op["op"] == "ann"]
+    """the annotations in creation order, in the state they have at the first save (after the `move` ops)"""
+    out, pos = [], {}
+    for op in sc["ops"]:
+        if op["op"] == "ann":
+            pos[op["l"]] = len(out)
+            out.append(op)
+        elif op["op"] == "move" and op["l"] in pos:
+            out[pos[op["l"]]] = _moved(out[pos[op["l"]]], op)
+    return out
 
 
-def _span_doc(text, other, k):
-    """All spans of `text` as annotations of view 0, alternately indexed / referenced-only; view 1 holds `other`."""
+def _anns2(sc):
+    """... and in the state they have at the second save (after the moves on the loaded CAS)"""
+    out = _anns(sc)
+    pos = {a["l"]: i for i, a in enumerate(out)}
+    for m in sc.get("pmv") or []:
+        if m["l"] in pos:
+            out[pos[m["l"]]] = _moved(out[pos[m["l"]]], m)
+    return out
+
+
+def _aops(sc):
+    """label -> list of (was a member of an index, move) in execution order, for the first stage"""
+    st, out = {}, {}
+    for op in sc["ops"]:
+        if op["op"] == "ann":
+            st[op["l"]] = op
+            out[op["l"]] = []
+        elif op["op"] == "move" and op["l"] in st:
+            out[op["l"]].append((bool(st[op["l"]]["idx"]), op))
+            st[op["l"]] = _moved(st[op["l"]], op)
+    return out
+
+
+def _span_doc(text, other, k, moved=False):
+    """All spans of `text` as annotations of view 0, alternately indexed / referenced-only; view 1 holds `other`.
+    moved: every annotation is first created in view 1 (offsets clipped to its text) and reaches view 0 and its span by a
+    `move` (after a save for every other string); the documents are loaded in another layout."""
     n = len(text)
     spans = [(b, e) for b in range(n + 1) for e in range(b, n + 1)]
     ops = [{"op": "text", "v": 0, "s": list(text)}, {"op": "text", "v": 1, "s": list(other)}]
@@ -187,6 +256,16 @@ def _span_doc(text, other, k):
     sc = {"k": "doc", "nv": 2, "ops": ops + anns + extra, "post": [[], []]}
     if typed:
         sc["ts"] = 1
+    if moved:
+        m = len(other)
+        moves = []
+        for a in anns:
+            moves.append({"op": "move", "l": a["l"], "v": 0, "off": [a["b"], a["e"]], "idx": a["idx"]})
+            a["v"], a["b"], a["e"] = 1, min(a["b"], m), min(a["e"], m)
+        sc["ops"] = sc["ops"] + ([{"op": "save"}] if k % 2 else []) + moves
+        sc["lay"] = k
+        if k % 3 == 0:                # on the loaded CAS the first annotation goes back to view 1
+            sc["pmv"] = [{"l": anns[0]["l"], "v": 1, "off": [0, min(m, 1)], "idx": True}]
     return sc
 
 
@@ -286,6 +365,59 @@ def _gen_doc(rng):
     return sc
 
 
+def _span_choice(r, t):
+    """begin/end for an annotation of a view whose text is `t` (code points or None)"""
+    L = len(t) if t is not None else 3
+    if r.random() < 0.04:
+        L += 2                                                      # beyond the text: outside the premises
+    b = r.randint(0, L)
+    if t and _astral(t) and r.random() < 0.7:                       # prefer spans after an astral character
+        first = min(i for i, c in enumerate(t) if c >= 0x10000)
+        b = r.randint(min(first + 1, L), L)
+    e = b if r.random() < 0.15 else r.randint(b, L)
+    return [b, e]
+
+
+def _widen(sc, r):
+    """Third wave, on top of a finished doc scenario and from a random stream of its own (so the scenario is otherwise
+    the one earlier versions of this check generated): annotations change their view - before the first save and on the
+    loaded CASes - and the documents are loaded in another layout than cassis writes.  New offsets are chosen inside the
+    text the target view has when the document is written."""
+    nv = sc["nv"]
+    ops = sc["ops"]
+    final, post = _final_texts(sc), _post_texts(sc)
+    movable = [o["l"] for o in ops if o["op"] == "ann" and o["b"] is not None]
+
+    def move(label, texts, state):
+        v = r.randrange(nv)
+        m = {"l": label, "v": v, "off": _span_choice(r, texts[v]), "idx": state["idx"] or r.random() < 0.4}
+        t = texts[v]
+        if t is not None and state["e"] <= len(t) and r.random() < 0.2:
+            m["off"] = None                                         # same numbers, another text
+        return m
+
+    if movable and r.random() < 0.4:
+        for _ in range(r.choice([1, 1, 2])):
+            label = r.choice(movable)
+            at = next(i for i, o in enumerate(ops) if o["op"] == "ann" and o["l"] == label)
+            pos = r.randint(at + 1, len(ops))
+            state = next(a for a in _anns({"ops": ops[:pos]}) if a["l"] == label)
+            m = move(label, final, state)
+            m["op"] = "move"
+            ops.insert(pos, m)
+            if r.random() < 0.35:
+                ops.insert(pos, {"op": "save"})                     # both documents are written, then it moves
+    if movable and r.random() < 0.3:
+        sc["pmv"] = []
+        for _ in range(r.choice([1, 1, 2])):
+            label = r.choice(movable)
+            state = next(a for a in _anns2(sc) if a["l"] == label)
+            sc["pmv"].append(move(label, post, state))
+    if r.random() < 0.5:
+        sc["lay"] = r.randint(1, 10 ** 6)
+    return sc
+
+
 def _gen_hist(rng):
     def val():
         r = rng.random()
@@ -315,14 +447,23 @@ def generate(rng, tier):
                 k += 1
                 other = [ALPHABET[(k + 3) % 5], ALPHABET[k % 5], 0x62][: 1 + k % 3]
                 yield _span_doc(t, other, k)
+        k = 0
+        for n in reversed(range((3 if tier == "thorough" else 2) + 1)):       # longest first: the more telling replays
+            for t in itertools.product(ALPHABET, repeat=n):
+                k += 1
+                other = [ALPHABET[(k + 3) % 5], ALPHABET[k % 5], 0x62][: 1 + k % 3]
+                yield _span_doc(t, other, k, moved=True)
+    # the random stream of the third-wave content: derived from the seed without drawing from `rng`
+    st = rng.getstate()[1]
+    base = (st[1] ^ (st[2] << 1) ^ (st[3] << 2) ^ st[623]) ^ 0x5C03      # st[0] is the same for every seed
     n_tab = {"quick": 200, "thorough": 1500, "search": 1500}[tier]
     for r in range(n_tab):
         big = tier != "quick" and r % 150 == 0
         yield {"k": "table", "text": _rand_text(rng, rng.randint(200, 1500) if big else rng.randint(1, 40))}
     for _ in range({"quick": 300, "thorough": 1500, "search": 1000}[tier]):
         yield _gen_hist(rng)
-    for _ in range({"quick": 1500, "thorough": 6000, "search": 6000}[tier]):
-        yield _gen_doc(rng)
+    for i in range({"quick": 1500, "thorough": 6000, "search": 6000}[tier]):
+        yield _widen(_gen_doc(rng), random.Random(base * 1000003 + i))
 
 
 # ------------------------------------------------------------------------------------------------ implementation
@@ -377,15 +518,17 @@ def _parse_json(data):
     return out
 
 
-def _collect(cas, nv, ann_types=("t.Ann",), rec_types=("t.Holder",)):
+def _collect(cas, nv, ann_types=("t.Ann",), rec_types=("t.Holder",), objs=None):
     """label -> [begin, end, covered text as code points or None, sofaID] of every annotation of one of the scenario's
-    annotation types reachable in a loaded CAS."""
+    annotation types reachable in a loaded CAS (objs, if given, receives label -> the annotation object)."""
     seen = {}
 
     def walk(fs):
         while fs is not None and fs.type.name in ann_types and fs.lab not in seen:
             txt = fs.get_covered_text() if fs.sofa is not None else None
             seen[fs.lab] = [fs.begin, fs.end, _cps(txt), fs.sofa.sofaID if fs.sofa is not None else None]
+            if objs is not None:
+                objs[fs.lab] = fs
             fs = fs.ref
     for name in VIEW_NAMES[:nv]:
         view = cas.get_view(name)
@@ -403,6 +546,72 @@ def _xmi_bytes(cas):
     return x.encode("utf-8") if isinstance(x, str) else x
 
 
+def _relayout_json(js, n):
+    """The same JSON CAS with the entries of %FEATURE_STRUCTURES in another order / container: reversed, sofas after
+    everything else, shuffled, or shuffled and as the object keyed by id (the older form, which the reader accepts);
+    for odd n // 4 non-ASCII characters are written as \\u escapes (astral ones as surrogate pairs)."""
+    doc = json.loads(js)
+    fss = doc.get("%FEATURE_STRUCTURES")
+    if isinstance(fss, list):
+        mode, r = n % 4, random.Random(n)
+        if mode == 0:
+            fss = fss[::-1]
+        elif mode == 1:
+            fss = ([fs for fs in fss if fs.get("%TYPE") != "uima.cas.Sofa"]
+                   + [fs for fs in fss if fs.get("%TYPE") == "uima.cas.Sofa"][::-1])
+        else:
+            r.shuffle(fss)
+        if mode == 3:
+            fss = {str(fs["%ID"]): {k: v for k, v in fs.items() if k != "%ID"} for fs in fss}
+        doc["%FEATURE_STRUCTURES"] = fss
+    return json.dumps(doc, ensure_ascii=bool(n // 4 % 2))
+
+
+def _relayout_xmi(data, n):
+    """The same XMI with the children of xmi:XMI (cas:NULL, sofas, feature structures, views) in another order:
+    reversed, the sofas after everything else, or shuffled.  Standard library only."""
+    ns = {}
+    for _ev, (prefix, uri) in ET.iterparse(io.BytesIO(data), events=("start-ns",)):
+        ns[prefix] = uri
+    for prefix, uri in ns.items():
+        try:
+            ET.register_namespace(prefix, uri)
+        except ValueError:
+            pass
+    root = ET.fromstring(data)
+    kids = list(root)
+    mode, r = n % 3, random.Random(n)
+    if mode == 0:
+        kids = kids[::-1]
+    elif mode == 1:
+        sofa = [e for e in kids if e.tag.endswith("}Sofa")]
+        kids = [e for e in kids if not e.tag.endswith("}Sofa")] + sofa[::-1]
+    else:
+        r.shuffle(kids)
+    for e in list(root):
+        root.remove(e)
+    root.extend(kids)
+    return ET.tostring(root, encoding="utf-8", xml_declaration=True)
+
+
+def _do_move(views, fs, st, m):
+    """views: the view handles by index; st: {'v', 'idx'} of the annotation before the move (updated)"""
+    if st["idx"]:
+        views[st["v"]].remove(fs)
+    if m.get("off") is not None:
+        fs.begin, fs.end = m["off"]
+    if st["idx"] or m["idx"]:
+        views[m["v"]].add(fs)
+        st["idx"] = True
+    else:
+        fs.sofa = views[m["v"]].get_sofa()
+    st["v"] = m["v"]
+
+
+def _covered(fs):
+    return _cps(fs.get_covered_text()) if fs.sofa is not None else None
+
+
 def _run_doc(cassis, sc):
     from cassis import Cas, load_cas_from_json, load_cas_from_xmi
     ts = _ts(cassis, _variant(sc))
@@ -411,6 +620,7 @@ def _run_doc(cassis, sc):
     cas = Cas(typesystem=ts)
     views = [cas] + [cas.create_view(n) for n in VIEW_NAMES[1:nv]]
     by_label = {}
+    state = {}
     pending = []
     for op in sc["ops"]:
         if op["op"] == "text":
@@ -427,8 +637,11 @@ def _run_doc(cassis, sc):
             else:
                 fs.sofa = views[op["v"]].get_sofa()
             by_label[op["l"]] = fs
+            state[op["l"]] = {"v": op["v"], "idx": bool(op["idx"])}
             if op["ref"] is not None:
                 pending.append((fs, op["ref"]))
+        elif op["op"] == "move":
+            _do_move(views, by_label[op["l"]], state[op["l"]], op)
         elif op["op"] == "holder":
             h = ts.get_type(rec_types[op.get("t", 0)])()
             views[op["v"]].add(h)
@@ -444,11 +657,22 @@ def _run_doc(cassis, sc):
     xmi = _xmi_bytes(cas)
     js = cas.to_json()
     xw, jw = _parse_xmi(xmi), _parse_json(js)
+    # the in-memory offsets must not have been touched by saving; the covered text is that of the annotation's own view
+    mem = [[by_label[l].begin, by_label[l].end] for l in labels]
+    mc = [_covered(by_label[l]) for l in labels]
+    if sc.get("lay"):                      # the documents that are loaded are laid out differently from what cassis writes
+        xmi, js = _relayout_xmi(xmi, sc["lay"]), _relayout_json(js, sc["lay"])
     cx = load_cas_from_xmi(xmi.decode("utf-8"), typesystem=ts)
     cj = load_cas_from_json(js, typesystem=ts)
-    xl, jl = _collect(cx, nv, ann_types, rec_types), _collect(cj, nv, ann_types, rec_types)
-    # second stage: replace texts on the loaded CASes and save again
-    for c in (cx, cj):
+    ox, oj = {}, {}
+    xl, jl = _collect(cx, nv, ann_types, rec_types, ox), _collect(cj, nv, ann_types, rec_types, oj)
+    # second stage: annotations change their view on the loaded CASes, texts are replaced, both are saved again
+    for c, objs in ((cx, ox), (cj, oj)):
+        lviews = [c.get_view(n) for n in VIEW_NAMES[:nv]]
+        st2 = {l: dict(v) for l, v in state.items()}
+        for m in sc.get("pmv") or []:
+            if m["l"] in objs:             # a missing annotation is reported by the oracle
+                _do_move(lviews, objs[m["l"]], st2[m["l"]], m)
         for v, sets in enumerate(sc["post"]):
             for s in sets:
                 c.get_view(VIEW_NAMES[v]).sofa_string = _s(s)
@@ -456,9 +680,10 @@ def _run_doc(cassis, sc):
 
     def seq(d):
         return [d.get(l) for l in labels]
-    # the in-memory offsets must not have been touched by saving
-    mem = [[by_label[l].begin, by_label[l].end] for l in labels]
-    return {"xw": seq(xw), "jw": seq(jw), "xl": seq(xl), "jl": seq(jl), "xw2": seq(xw2), "jw2": seq(jw2), "mem": mem}
+    xc2 = [_covered(ox[l]) if l in ox else None for l in labels]
+    jc2 = [_covered(oj[l]) if l in oj else None for l in labels]
+    return {"xw": seq(xw), "jw": seq(jw), "xl": seq(xl), "jl": seq(jl), "xw2": seq(xw2), "jw2": seq(jw2), "mem": mem,
+            "mc": mc, "xc2": xc2, "jc2": jc2}
 
 
 def run_impl(cassis, sc):
@@ -528,22 +753,24 @@ def _oracle_conv_at(s, qs, p2e, e2p):
     return None
 
 
+def _inside(t, b, e):
+    return t is not None and b is not None and e is not None and 0 <= b <= e <= len(t)
+
+
 def _oracle_doc(sc, obs):
     final = _final_texts(sc)
-    post_final = list(final)
-    for v, sets in enumerate(sc["post"]):
-        if sets:
-            post_final[v] = sets[-1]
+    post_final = _post_texts(sc)
+    lay = f" (documents re-laid-out with {sc['lay']})" if sc.get("lay") else ""
     for k, a in enumerate(_anns(sc)):
         who = (f"annotation {a['l']} (type {_ann_types(sc)[a.get('t', 0)]}, {'indexed' if a['idx'] else 'referenced-only'}, "
-               f"view {a['v']}, begin={a['b']}, end={a['e']})")
+               f"view {a['v']}, begin={a['b']}, end={a['e']}{', its view was changed ' + str(a['mv']) + 'x' if a.get('mv') else ''})")
         if obs["mem"][k] != [a["b"], a["e"]]:
             return f"in-memory offsets: {who} reads {obs['mem'][k]} after saving"
         for key, fmt in (("xw", "XMI"), ("jw", "JSON"), ("xl", "XMI load"), ("jl", "JSON load")):
             if obs[key][k] is None:
                 return f"{fmt}: {who} is missing"
         t = final[a["v"]]
-        if t is None or a["b"] is None or a["e"] is None or not (0 <= a["b"] <= a["e"] <= len(t)):
+        if not _inside(t, a["b"], a["e"]):
             continue
         s = _s(t)
         want = [_u16(s, a["b"]), _u16(s, a["e"])]
@@ -557,21 +784,48 @@ def _oracle_doc(sc, obs):
         for key, fmt in (("xl", "XMI"), ("jl", "JSON")):
             b, e, txt, sid = obs[key][k]
             if [b, e] != [a["b"], a["e"]]:
-                return f"loaded offsets: after {fmt} load {who} has begin/end {[b, e]} (text {s!r})"
+                return f"loaded offsets: after {fmt} load{lay} {who} has begin/end {[b, e]} (text {s!r})"
             if txt != _cps(cov):
-                return f"covered text: after {fmt} load {who} covers {_s(txt)!r}, expected {cov!r}"
+                return f"covered text: after {fmt} load{lay} {who} covers {_s(txt)!r}, expected {cov!r}"
             if sid != VIEW_NAMES[a["v"]]:
-                return f"loaded sofa: after {fmt} load {who} belongs to sofa {sid}"
-        # second save, after the text was replaced on the loaded CAS
-        t2 = post_final[a["v"]]
-        if t2 is None or not (a["e"] <= len(t2)):
-            continue
-        s2 = _s(t2)
-        want2 = [_u16(s2, a["b"]), _u16(s2, a["e"])]
-        for key, fmt in (("xw2", "XMI"), ("jw2", "JSON")):
-            if obs[key][k] != want2:
-                return (f"written offsets after text replacement on the loaded CAS: {fmt} has {obs[key][k]} for {who}; "
-                        f"text is now {s2!r}, UTF-16 code-unit offsets are {want2}")
+                return f"loaded sofa: after {fmt} load{lay} {who} belongs to sofa {sid}"
+    # in memory (after the view changes, before anything is loaded) the covered text is that of the annotation's own view
+    for k, a in enumerate(_anns(sc)):
+        t = final[a["v"]]
+        if "mc" in obs and _inside(t, a["b"], a["e"]) and obs["mc"][k] != _cps(_s(t)[a["b"]:a["e"]]):
+            return (f"covered text: in memory annotation {a['l']} (view {a['v']}, begin={a['b']}, end={a['e']}, its view was "
+                    f"changed {a.get('mv', 0)}x) covers {_s(obs['mc'][k])!r}, its view's text is {_s(t)!r}")
+    # second save, after annotations changed their view and the text was replaced on the loaded CAS: checked last, so
+    # that a wrong first document is reported as such
+    for k, (a, a2) in enumerate(zip(_anns(sc), _anns2(sc))):
+        m = _oracle_ann2(sc, obs, k, a, a2, post_final, _inside(final[a["v"]], a["b"], a["e"]), lay)
+        if m:
+            return m
+    return None
+
+
+def _oracle_ann2(sc, obs, k, a, a2, post_final, ok1, lay):
+    """the second stage for one annotation: a2 = its state at the second save.  Inside the premises if the loaded offsets
+    are code points (first stage inside the premises) or were assigned anew on the loaded CAS, and lie in the text the view has now"""
+    reassigned = any(m["l"] == a["l"] and m.get("off") is not None for m in sc.get("pmv") or [])
+    if not (ok1 or reassigned):
+        return None
+    t2 = post_final[a2["v"]]
+    if not _inside(t2, a2["b"], a2["e"]):
+        return None
+    s2 = _s(t2)
+    want2 = [_u16(s2, a2["b"]), _u16(s2, a2["e"])]
+    who = (f"annotation {a['l']} (type {_ann_types(sc)[a.get('t', 0)]}, {'indexed' if a2['idx'] else 'referenced-only'}, "
+           f"on the loaded CAS in view {a2['v']}, begin={a2['b']}, end={a2['e']}"
+           f"{', moved there after loading' if a2.get('mv', 0) > a.get('mv', 0) else ''})")
+    for key, fmt in (("xw2", "XMI"), ("jw2", "JSON")):
+        if obs[key][k] != want2:
+            return (f"written offsets after changes on the loaded CAS: {fmt}{lay} has {obs[key][k]} for {who}; "
+                    f"text is now {s2!r}, UTF-16 code-unit offsets are {want2}")
+    for key, fmt in (("xc2", "XMI"), ("jc2", "JSON")):
+        if key in obs and obs[key][k] != _cps(s2[a2["b"]:a2["e"]]):
+            return (f"covered text after changes on the loaded CAS: {fmt}-loaded{lay} {who} covers {_s(obs[key][k])!r}; "
+                    f"text is now {s2!r}")
     return None
 
 
@@ -616,7 +870,32 @@ def render(sc, obs):
         if any(x is None for x in obs[key]):
             return None                      # an annotation is missing from a document: the oracle reports it
     g_views = _gl([_gl([_gotext(s) for s in v]) for v in views])
-    g_anns = _gl([f"mkDann {a['v']}%nat {_goz(a['b'])} {_goz(a['e'])}" for a in anns])
+    aops = _aops(sc)
+
+    def g_moves(moves):
+        out = []
+        for was_idx, m in moves:
+            if was_idx:
+                out.append("ARemove")
+            if m.get("off") is not None:
+                out.append(f"AOff {_goz(m['off'][0])} {_goz(m['off'][1])}")
+            out.append(f"{'AAdd' if was_idx or m['idx'] else 'ASofa'} {m['v']}%nat")
+        return _gl(out)
+
+    def g_ann(a):
+        a0 = next(o for o in sc["ops"] if o["op"] == "ann" and o["l"] == a["l"])        # as created
+        g = f"mkDann {a0['v']}%nat {_goz(a0['b'])} {_goz(a0['e'])}"
+        return f"ann_run ({g}) {g_moves(aops[a['l']])}" if aops[a["l"]] else g
+    g_anns = _gl([g_ann(a) for a in anns])
+    g_pmv = "[]"
+    if sc.get("pmv"):
+        cur = {a["l"]: a for a in anns}
+        per = {a["l"]: [] for a in anns}
+        for m in sc["pmv"]:
+            if m["l"] in per:
+                per[m["l"]].append((bool(cur[m["l"]]["idx"]), m))
+                cur[m["l"]] = _moved(cur[m["l"]], m)
+        g_pmv = _gl([g_moves(per[a["l"]]) for a in anns])
 
     def w(key):
         return _gl([f"({_goz(b)},{_goz(e)})" for b, e in obs[key]])
@@ -624,7 +903,7 @@ def render(sc, obs):
     def l(key):
         return _gl([f"({_goz(b)},{_goz(e)},{_gotext(t)})" for b, e, t, _sid in obs[key]])
     g_post = _gl([_gl([_gotext(s) for s in v]) for v in sc["post"]])
-    return f"Doc {g_views} {g_anns} {w('xw')} {w('jw')} {l('xl')} {l('jl')} {g_post} {w('xw2')} {w('jw2')}"
+    return f"Doc {g_views} {g_anns} {w('xw')} {w('jw')} {l('xl')} {l('jl')} {g_pmv} {g_post} {w('xw2')} {w('jw2')}"
 
 
 # ------------------------------------------------------------------------------------------------ bookkeeping
@@ -653,12 +932,19 @@ def _normalise(sc):
             if o["op"] == "ann" and o["ref"] is not None and o["ref"] not in labels:
                 o["ref"] = None
         ops = [o for o in ops if not (o["op"] == "holder" and o["ref"] not in labels)]
+        ops = [o for o in ops if not (o["op"] == "move" and o["l"] not in labels)]
         referenced = {o["ref"] for o in ops if o["op"] in ("ann", "holder") and o["ref"] is not None}
-        drop = [o for o in ops if o["op"] == "ann" and not o["idx"] and o["l"] not in referenced]
+        indexed = {a["l"] for a in _anns({"ops": ops}) if a["idx"]}          # at the first save
+        drop = [o for o in ops if o["op"] == "ann" and o["l"] not in indexed and o["l"] not in referenced]
         if not drop:
             break
         ops = [o for o in ops if o not in drop]
     sc["ops"] = ops
+    if sc.get("pmv") is not None:
+        labels = {o["l"] for o in ops if o["op"] == "ann"}
+        sc["pmv"] = [m for m in sc["pmv"] if m["l"] in labels]
+        if not sc["pmv"]:
+            del sc["pmv"]
     return sc
 
 
@@ -691,6 +977,14 @@ def shrink_candidates(sc):
         c = cp(sc)
         c["post"] = [[] for _ in sc["post"]]
         yield c
+    if sc.get("lay"):
+        c = cp(sc)
+        del c["lay"]
+        yield c
+    for i in range(len(sc.get("pmv") or [])):
+        c = cp(sc)
+        del c["pmv"][i]
+        yield _normalise(c)
     for o in sc["ops"]:
         if o["op"] == "ann" and not o["idx"]:
             c = cp(sc)
@@ -717,6 +1011,9 @@ def shrink_candidates(sc):
                     if p["op"] == "ann" and p["v"] == o["v"] and p["e"] is not None:
                         p["e"] = min(p["e"], n)
                         p["b"] = min(p["b"], p["e"])
+                for p in c["ops"] + (c.get("pmv") or []):
+                    if p.get("off") is not None and p["v"] == o["v"]:
+                        p["off"] = [min(p["off"][0], n), min(p["off"][1], n)]
                 yield c
     for i, o in enumerate(sc["ops"]):
         if o["op"] == "ann" and o["b"] is not None:
@@ -755,6 +1052,20 @@ def _shadowed(sc):
     return False
 
 
+def _moved_across(sc):
+    """an indexed annotation is re-added to a view whose text (at the first save) differs from its previous view's"""
+    final, st = _final_texts(sc), {}
+    for o in sc["ops"]:
+        if o["op"] == "ann":
+            st[o["l"]] = o
+        elif o["op"] == "move" and o["l"] in st:
+            was = st[o["l"]]
+            if was["idx"] and final[was["v"]] != final[o["v"]]:
+                return True
+            st[o["l"]] = _moved(was, o)
+    return False
+
+
 def distribution(scenarios, observations):
     docs = [s for s in scenarios if s["k"] == "doc"]
     anns = [a for s in docs for a in _anns(s)]
@@ -786,6 +1097,14 @@ def distribution(scenarios, observations):
         "annotations_by_type": {t: sum(1 for s in docs for a in _anns(s) if _ann_types(s)[a.get("t", 0)] == t)
                                 for t in ANN_TYPES},
         "docs_record_before_annotation_same_short_name": sum(1 for s in docs if _shadowed(s)),
+        "docs_annotation_changes_view_before_first_save": sum(1 for s in docs if any(o["op"] == "move" for o in s["ops"])),
+        "docs_annotation_moved_to_view_with_other_text": sum(1 for s in docs if _moved_across(s)),
+        "docs_annotation_changes_view_right_after_a_save": sum(
+            1 for s in docs if any(o["op"] == "move" and i and s["ops"][i - 1]["op"] == "save" for i, o in enumerate(s["ops"]))),
+        "docs_annotation_changes_view_on_loaded_cas": sum(1 for s in docs if s.get("pmv")),
+        "docs_loaded_in_another_layout": sum(1 for s in docs if s.get("lay")),
+        "docs_loaded_with_sofas_after_annotations_astral": sum(
+            1 for s in docs if s.get("lay") and s["lay"] % 4 != 2 and nontrivial(s)),
     }
 
 
